@@ -345,12 +345,12 @@ func c02Numbers(c *eng.Ctx, d *dbInfo, k *kvAnalysis) {
 		if w.Loc != "kv.secrets" || w.Kind != "insert" || w.Rollback != nil {
 			continue
 		}
-		al, isAl := eng.Origin(w.Val).(*ssa.Alloc)
-		if !isAl {
+		// (a literal built in place, or by a constructor helper that returns it)
+		fields, _, isLit := eng.LiteralThroughHelper(w.Val)
+		if !isLit {
 			c.Bad("R-C02-3", w.Fn, w.In.Pos(), eng.InstrStr(w.In), "a secret is created from a fresh literal", "value "+eng.ValStr(w.Val))
 			continue
 		}
-		fields, _, _ := eng.LiteralFields(al)
 		lv, ok1 := eng.ConstInt(fields["LatestVersion"])
 		av, ok2 := eng.ConstInt(fields["ActiveVersion"])
 		// keys of the Versions literal
